@@ -146,12 +146,40 @@ def _design_run(tier, wd):
         name = row[0]
         cfg = os.path.join(wd, "design_%s.cfg" % name)
         consts = _cfg(cfg, *row[1:])
-        r = vc.model_check(SPEC, "MCAliasing", cfg, coverage=True, workers=per, timeout=3000 if tier == "quick" else 7200,
-                           heap="6g" if tier == "quick" else "12g")
+        r = vc.tlc(SPEC, "MCAliasing", cfg, coverage=True, workers=per, timeout=3000 if tier == "quick" else 7200,
+                   heap="6g" if tier == "quick" else "12g")
         return name, consts, r
 
     with ThreadPoolExecutor(max_workers=2) as ex:
-        return list(ex.map(one, rows))
+        res = list(ex.map(one, rows))
+    # self-check of the property: with the code's listener cascade in place of the definition, Follows must fail
+    cfg = os.path.join(wd, "design_selfcheck.cfg")
+    with open(cfg, "w") as f:
+        f.write("SPECIFICATION SpecSC\nCONSTANTS\n  Names = {1, 2, 3}\n  Owners = {1}\n  Vals = {1, 2, 3}\n  Cons <- ConsNone\n"
+                "  NSs = {0}\n  ParSets <- ParAll\n  MaxWrites = 0\n  Maps <- MapsNone\nINVARIANTS TypeOK Acyclic\n"
+                "PROPERTIES Follows\nCHECK_DEADLOCK FALSE\n")
+    r = vc.tlc(SPEC, "MCAliasing", cfg, workers=2, timeout=900, heap="2g")
+    _tidy()
+    if r.invariant != "Follows":
+        raise vc.MachineryError("self-check: the short-circuit cascade does not violate Follows in the model\n" + r.out[-2000:])
+    # ... and with the loop as it was before the repair (retry without advancing), BulkTerminates must fail
+    with open(cfg, "w") as f:
+        f.write("SPECIFICATION SpecStuck\nCONSTANTS\n  Names = {1, 2, 3}\n  Owners = {1}\n  Vals = {1}\n  Cons <- ConsNone\n"
+                "  NSs = {0}\n  ParSets <- ParAll\n  MaxWrites = 0\n  Maps <- MapsAll\nINVARIANTS TypeOK\n"
+                "PROPERTIES BulkTerminates\nCHECK_DEADLOCK FALSE\n")
+    r = vc.tlc(SPEC, "MCAliasing", cfg, workers=2, timeout=900, heap="2g")
+    _tidy()
+    if _temporal(r) != "BulkTerminates":
+        raise vc.MachineryError("self-check: the non-advancing loop does not violate BulkTerminates in the model\n" + r.out[-2000:])
+    return res
+
+
+def _temporal(r):
+    import re
+    m = re.search(r"Temporal property (\S+) was violated", r.out)
+    if m:
+        return m.group(1)
+    return "temporal" if "Temporal properties were violated" in r.out else None
 
 
 def _design_report(ck, res):
@@ -162,8 +190,11 @@ def _design_report(ck, res):
             seen.add(a)
             if t or g:
                 taken.add(a)
-        if r.invariant or not r.completed:
-            ck.violation("design model Aliasing/%s violates %s" % (name, r.invariant or "(did not complete)"), [r.out[-6000:]], tag="model")
+        bad = r.invariant or _temporal(r)
+        if bad:
+            ck.violation("design model Aliasing/%s violates %s" % (name, bad), [r.out[-6000:]], tag="model")
+        elif not r.completed:
+            raise vc.MachineryError("TLC failed on design model Aliasing/%s: %s\n%s" % (name, r.other_error, r.out[-3000:]))
     # an action counts as untaken only if no configuration takes it (copy needs two owners, the bulk call its own configuration)
     ck.untaken = sorted(seen - taken)
     if ck.untaken:
@@ -237,6 +268,8 @@ def run(tier, seed):
     os.remove(tr)
     if design is not None:
         _design_report(ck, design.result())
+        ck.extra["model_selfcheck"] = ("Follows is violated (as it must be) when set-by-name uses the code's listener cascade SetAlg; "
+                                       "BulkTerminates is violated (as it must be) by the loop that retries without advancing")
         vc.log("C03: design models done after %.0fs" % (time.time() - t0))
     bg.shutdown()
     ck.extra["driver_calls"] = calls
